@@ -1200,9 +1200,12 @@ class CompilerPassGatherCode(CompilerPass):
         for line_num, line in enumerate(new_code):
             for label, target_line in label_map.items():
                 # whole operand tokens only: "\b" also matches inside dotted
-                # labels (update / update.display) and inside HASH("...")
-                pattern = r"(?<!\S){}(?!\S)".format(re.escape(label))
-                if re.search(pattern, line):
+                # labels (update / update.display) and inside HASH("...");
+                # a quoted HASH("..")/STR("..") operand is consumed unchanged
+                pattern = r'(?:HASH|STR)\("[^"]*"\)|(?<!\S)(?P<label>{})(?!\S)'.format(
+                    re.escape(label)
+                )
+                if any(m.group("label") for m in re.finditer(pattern, line)):
                     if relative_numbers:
                         offset = target_line - line_num
                         replacement = str(offset)
@@ -1214,7 +1217,11 @@ class CompilerPassGatherCode(CompilerPass):
                     else:
                         replacement = str(target_line)
 
-                    line = re.sub(pattern, replacement, line)
+                    line = re.sub(
+                        pattern,
+                        lambda m: replacement if m.group("label") else m.group(0),
+                        line,
+                    )
             new_code[line_num] = line
 
         new_code = "\n".join(new_code)
